@@ -90,13 +90,18 @@ func ext۰reflect۰rtype۰Field(fr *frame, args []value) value {
 	st := args[0].(rtype).t.Underlying().(*types.Struct)
 	i := args[1].(int)
 	f := st.Field(i)
+	// PkgPath qualifies unexported field names only; it is empty for exported ones
+	pkgPath := ""
+	if !f.Exported() && f.Pkg() != nil {
+		pkgPath = f.Pkg().Path()
+	}
 	return structure{
 		f.Name(),
-		f.Pkg().Path(),
+		pkgPath,
 		makeReflectType(rtype{f.Type()}),
 		st.Tag(i),
-		0,         // TODO(adonovan): offset
-		[]value{}, // TODO(adonovan): indices
+		uintptr(0), // offset: not modelled
+		[]value{i},
 		f.Anonymous(),
 	}
 }
@@ -552,6 +557,9 @@ func initReflect(i *interpreter) {
 		"Out":       newMethod(i.reflectPackage, rtypeType, "Out"),
 		"Size":      newMethod(i.reflectPackage, rtypeType, "Size"),
 		"String":    newMethod(i.reflectPackage, rtypeType, "String"),
+	}
+	for _, name := range extraRtypeMethods {
+		i.rtypeMethods[name] = newMethod(i.reflectPackage, rtypeType, name)
 	}
 	i.errorMethods = methodSet{
 		"Error": newMethod(i.reflectPackage, errorType, "Error"),
